@@ -893,7 +893,9 @@ func runC05(e *env) {
 	for i := 0; i < vres.Pick(8, 80); i++ {
 		e.c05multiplex(rng, sets[i%len(sets)])
 	}
-	for _, p := range []string{`42["ev","x"]`, `42/ab,["ev","x"]`, `42/a/b,["ev","x"]`, `42/,["ev","x"]`, `43/ab,1["x"]`, `41/ab,`} {
+	for _, p := range []string{`42["ev","x"]`, `42/ab,["ev","x"]`, `42/a/b,["ev","x"]`, `42/,["ev","x"]`, `43/ab,1["x"]`, `41/ab,`,
+		// names that a path normalisation would fold onto the joined "/a"
+		`42/a/,["ev","x"]`, `42//a,["ev","x"]`, `42/a/.,["ev","x"]`, `42/b/../a,["ev","x"]`, `43/a/,1["x"]`, `42/A,["ev","x"]`, `42/a ,["ev","x"]`} {
 		e.c05unjoined(p)
 	}
 }
